@@ -426,4 +426,131 @@ theorem chanComplete_of (N : Nat) (pre post : List Ev) (b : Bool) {i c : Nat} {o
   · exact compl_of_done_run N pre post b hd hq ho hc hch h
   · exact compl_of_served N pre post b hd hq ho hc h ch hch
 
+/-! ### as an invariant of every reachable state (start position existentially quantified) -/
+
+/-- `Served`, for whichever search owns channel `c`, once the driver has taken its request -/
+def ServedT (s : St) (c : Nat) : Prop :=
+  ∀ ch o, s.chans[c]? = some ch → s.ops[ch.opIdx]? = some o → o.phase = .taken → Served s c o.id
+
+instance (s : St) (c : Nat) : Decidable (ServedT s c) :=
+  match h : s.chans[c]? with
+  | none => isTrue (fun ch o hc => by rw [h] at hc; cases hc)
+  | some ch0 =>
+    match h2 : s.ops[ch0.opIdx]? with
+    | none => isTrue (fun ch o hc ho => by rw [h] at hc; cases hc; rw [h2] at ho; cases ho)
+    | some o0 =>
+      decidable_of_iff (o0.phase = .taken → Served s c o0.id)
+        ⟨fun hh ch o hc ho => by rw [h] at hc; cases hc; rw [h2] at ho; cases ho; exact hh, fun hh => hh ch0 o0 h h2⟩
+
+/-- at every moment of the history -/
+def ServedHist (N : Nat) (evs : List Ev) (c : Nat) : Prop :=
+  ∀ n, n ≤ evs.length → ServedT (Conn.run (Conn.init N) (evs.take n)) c
+
+instance (N : Nat) (evs : List Ev) (c : Nat) : Decidable (ServedHist N evs c) := by
+  unfold ServedHist; exact inferInstance
+
+/-- a channel that has been given nothing, whose request has just been taken: `J` from the current read position -/
+theorem J.fresh {c : Nat} {s : St} {ch : Chan} {o : Op} (hg : Good s) (hwf : ChanWF s) (hc : s.chans[c]? = some ch)
+    (hemp : ch.items = []) (ho : s.ops[ch.opIdx]? = some o) (hph : o.phase = .taken) :
+    J c (consumed s).length ch.opIdx o.id s := by
+  refine ⟨CAt.fresh (fun ch2 h2 => by rw [hc] at h2; cases h2; exact hemp), ⟨ch, o, hc, rfl, ho, rfl, hph⟩, hg, hwf, ?_⟩
+  intro _ ch2 h2
+  rw [hc] at h2; cases h2
+  rw [hemp, sentFrom_consumed, List.drop_eq_nil_of_le (Nat.le_refl _)]
+  rfl
+
+/-- the invariant: once the request has been taken there is a start position from which `J` holds -/
+def K (c : Nat) (s : St) : Prop :=
+  ∀ ch o, s.chans[c]? = some ch → s.ops[ch.opIdx]? = some o → o.phase = .taken → ∃ p0, J c p0 ch.opIdx o.id s
+
+theorem K.step {c : Nat} {s s' : St} {ob : Obs} (hK : K c s) (hg : Good s) (hwf : ChanWF s) (hS : ServedT s c) (e : Ev)
+    (hstep : Conn.step s e = some (s', ob)) : K c s' := by
+  intro ch' o' hc' ho' hph'
+  have sum := StepSum.step hg.route hg.keyU hg.qInv e hstep
+  have hg' := hg.step e hstep
+  have hwf' := hwf.step e hstep
+  cases hcs : s.chans[c]? with
+  | none =>
+    -- the channel is new: its request cannot have been taken yet
+    rcases sum.cls c with q | r | a
+    · rcases q.chans ch' hc' with ⟨ch, hc, _⟩ | ⟨_, _, _, o2, ho2, hal⟩
+      · rw [hcs] at hc; cases hc
+      · rw [ho'] at ho2; cases ho2
+        rw [hph'] at hal; cases hal
+    · obtain ⟨ch, _, hc, _⟩ := r.was
+      rw [hcs] at hc; cases hc
+    · obtain ⟨ch, _, _, _, hc, _⟩ := a
+      rw [hcs] at hc; cases hc
+  | some ch =>
+    obtain ⟨o, ho, hcase⟩ := hg.p c ch hcs
+    rcases hcase with ⟨hph, _⟩ | ⟨hnt, hemp, hno⟩
+    · -- taken before: carry `J` over the step
+      obtain ⟨p0, hJ⟩ := hK ch o hcs ho hph
+      have hJ' := hJ.step (hS ch o hcs ho hph) e hstep
+      obtain ⟨ch2, o2, hc2, hx2, ho2, hk2, _⟩ := hJ'.taken
+      rw [hc'] at hc2; cases hc2
+      rw [← hx2] at ho2
+      rw [ho'] at ho2; cases ho2
+      rw [hx2, hk2]
+      exact ⟨p0, hJ'⟩
+    · -- taken by this step: the channel is still empty
+      have hemp' : ch'.items = [] := by
+        rcases sum.cls c with q | r | a
+        · rcases q.chans ch' hc' with ⟨ch2, hc2, hi, _⟩ | ⟨hnone, _⟩
+          · rw [hcs] at hc2; cases hc2
+            rw [hi]; exact hemp
+          · rw [hcs] at hnone; cases hnone
+        · rw [r.chans, hcs] at hc'; cases hc'
+          exact hemp
+        · obtain ⟨_, k, _, _, _, _, hreg, _⟩ := a
+          exact absurd hreg (hno k)
+      exact ⟨_, J.fresh hg' hwf' hc' hemp' ho' hph'⟩
+
+theorem K.run {c : Nat} (evs : List Ev) : ∀ s, K c s → Good s → ChanWF s →
+    (∀ n, n ≤ evs.length → ServedT (Conn.run s (evs.take n)) c) → K c (Conn.run s evs) := by
+  induction evs with
+  | nil => intro s hK _ _ _; exact hK
+  | cons e es ih =>
+    intro s hK hg hwf hS
+    have h0 : ServedT s c := hS 0 (Nat.zero_le _)
+    cases hstep : Conn.step s e with
+    | none =>
+      rw [run_cons_none hstep]
+      refine ih s hK hg hwf (fun n hn => ?_)
+      have := hS (n + 1) (by simp only [List.length_cons]; omega)
+      rwa [List.take_succ_cons, run_cons_none hstep] at this
+    | some r =>
+      obtain ⟨s', ob⟩ := r
+      rw [run_cons_some hstep]
+      refine ih s' (hK.step hg hwf h0 e hstep) (hg.step e hstep) (hwf.step e hstep) (fun n hn => ?_)
+      have := hS (n + 1) (by simp only [List.length_cons]; omega)
+      rwa [List.take_succ_cons, run_cons_some hstep] at this
+
+/-- Every history, every search channel `c` with its operation record `o`: if the SearchResultDone is in the
+channel, or the search has been served throughout the history, then there is a read position `p0` from
+which the channel is complete.  (A search whose request the driver has not taken has an empty channel
+and is complete from the current read position: nothing has been read for it.) -/
+theorem chanComplete_inv (N : Nat) (evs : List Ev) (c : Nat) (ch : Chan) (o : Op)
+    (hc : (Conn.run (Conn.init N) evs).chans[c]? = some ch) (ho : (Conn.run (Conn.init N) evs).ops[ch.opIdx]? = some o)
+    (h : (∃ f, Item.done f ∈ ch.items) ∨ ServedHist N evs c) :
+    ∃ p0, p0 ≤ (Conn.run (Conn.init N) evs).pos ∧ ChanComplete (Conn.run (Conn.init N) evs) ch o p0 := by
+  have hg := Good.run N evs
+  have hpos := consumed_length hg.route.posLe
+  obtain ⟨o2, ho2, hcase⟩ := hg.p c ch hc
+  rw [ho] at ho2; cases ho2
+  rcases hcase with ⟨hph, p0, hcat⟩ | ⟨_, hemp, _⟩
+  · rcases h with ⟨f, hf⟩ | hS
+    · exact ⟨p0, by rw [← hpos]; exact hcat.le, compl_of_done hcat hg.route hc ho hf⟩
+    · have hK0 : K c (Conn.init N) := by intro ch o hc; simp [Conn.init] at hc
+      have hK := K.run evs _ hK0 (Good.init N) (ChanWF.init N) hS
+      obtain ⟨p1, hJ⟩ := hK ch o hc ho hph
+      have hSf : ServedT (Conn.run (Conn.init N) evs) c := by
+        have := hS evs.length (Nat.le_refl _)
+        rwa [List.take_length] at this
+      exact ⟨p1, by rw [← hpos]; exact hJ.cat.le, hJ.compl (hSf ch o hc ho hph) ch hc⟩
+  · refine ⟨(Conn.run (Conn.init N) evs).pos, Nat.le_refl _, ?_⟩
+    unfold ChanComplete
+    rw [hemp, sentFrom_consumed, List.drop_eq_nil_of_le (by rw [hpos]; exact Nat.le_refl _)]
+    rfl
+
 end Ldap3V.ConnStream
